@@ -77,8 +77,9 @@ def models(ctx):
     """(name, Bg, must_hold | name of the invariant that must be violated)"""
     th = ctx.thorough
     A = dict(KNames="<- MCKNames", MaxLoads=ctx.pick(4, 5), MaxEnv=ctx.pick(2, 3))
-    B = dict(PNames="<- MCPNames", Clients="<- MCClients2", MaxIssue=ctx.pick(2, 3), MaxHs=2, MaxEnv=1)
-    Bc = dict(PNames="<- MCPNames", Clients="<- MCClients2", MaxIssue=2, MaxHs=ctx.pick(1, 2), MaxEnv=1)
+    B = dict(PNames="<- MCPNames", Clients="<- MCClients2", MaxIssue=2, MaxHs=2, MaxEnv=1)
+    B3 = dict(B, MaxIssue=ctx.pick(2, 3))
+    Bc = dict(PNames="<- MCPNames", Clients="<- MCClients2", MaxIssue=2, MaxHs=1, MaxEnv=1)
     C = dict(TTL=ctx.pick(2, 3), MaxT=ctx.pick(14, 20), MaxEnv=ctx.pick(3, 4))
     jobs = [
         ("A documented design", "MCASpec", A_INV, A, None, 4),
@@ -86,7 +87,7 @@ def models(ctx):
         ("A FieldlessIgnored", "MCASpec", A_INV, dict(A, FieldlessIgnored=True), "ABadNeverPublishes", 2),
         ("A SpinOnError", "MCASpec", A_INV, dict(A, SpinOnError=True), "ANoSpin", 2),
         ("A liveness", "MCALive", "PROPERTY AConverges\n", dict(KNames="<- MCKNames1", MaxLoads=3, MaxEnv=2), None, 2),
-        ("B documented design", "BSpec", B_SAFE + B_DOC, B, None, 6),
+        ("B documented design", "BSpec", B_SAFE + B_DOC, B3, None, 8),
         ("B as the code is (safety that must survive)", "BSpec", B_SAFE, dict(Bc, AsyncInstall=True, ServesExpired=True), None, 6),
         ("B AsyncInstall", "BSpec", B_DOC, dict(B, AsyncInstall=True), "BServedFromCache", 4),
         ("B ServesExpired", "BSpec", B_DOC, dict(B, ServesExpired=True), "BExpiredNeverPresented", 4),
@@ -119,7 +120,7 @@ def judge_models(ctx, jobs):
             if cov:
                 dead = [m for m in re.findall(r"<(\w+) line \d+, col \d+ to line \d+, col \d+ of module VaultCerts(?:_MC)?>: 0:0", r.out)]
                 part = name[0]
-                dead = [d for d in dead if d not in ("HsFallback",) and (d[0] == part or d.startswith({"A": "K", "B": "Hs", "C": "T"}[part]))]
+                dead = [d for d in dead if d not in ("HsFallback", "HsCached") and (d[0] == part or d.startswith({"A": "K", "B": "Hs", "C": "T"}[part]))]
                 if dead:
                     ctx.inconclusive("VaultCerts %s: actions never taken: %s" % (name, dead))
                     ok = False
@@ -323,6 +324,9 @@ def head_segments(src, dst, n):
 
 
 def stuck_at(r):
+    for j in r.json:
+        if isinstance(j, dict) and "stuck" in j:
+            return int(j["stuck"])
     m = re.search(r'stuck\\?":(\d+)', r.out)
     return int(m.group(1)) if m else 0
 
@@ -363,6 +367,8 @@ def run(ctx):
     for k, v in dev.items():
         if v:
             ctx.log("LEAD (%s): %s" % (k, LEADS[k]))
+    if pr.get("DupIssueWindow"):
+        ctx.log("LEAD (AsyncInstall): VaultPKISource.Issue caches the certificate in s.certs, but GetCertificate only consults the certificate store, which is updated later by `go func() { s.certsCh <- allCerts }()` goroutines (unordered) and the TLSConfig goroutine: with that goroutine held for a moment, two consecutive handshakes for one name caused %s issue requests - the cache is not what handshakes are served from; every duplicate arms one more re-issue timer chain for the name, and an older snapshot delivered last removes a newer certificate from the store" % pr.get("DupIssueRequests"))
     if pr.get("ShortTTLSpin"):
         ctx.log("LEAD (ShortTTLSpin): a certificate whose life time is not longer than the refresh option (floor: one hour) makes Issue arm its timer with a negative duration: the re-issue fires at once, the new certificate does the same - %s issue requests in %s ms" % (pr.get("ShortTTLSpinRequests"), pr.get("ShortTTLSpinWindowMs")))
 
@@ -390,8 +396,10 @@ def run(ctx):
         judge_models(ctx, mjobs)
         return
     fa, fb, fc = (os.path.join(ctx.tmp, "x07.in." + x) for x in "abc")
-    vf.write_ndjson(fa, ha)
-    vf.write_ndjson(fb, hb)
+    CA, CB = 500, 1500
+    more = [(ha[i * CA:(i + 1) * CA], hb[i * CB:(i + 1) * CB]) for i in range(1, max((len(ha) + CA - 1) // CA, (len(hb) + CB - 1) // CB))]
+    vf.write_ndjson(fa, ha[:CA])
+    vf.write_ndjson(fb, hb[:CB])
     vf.write_ndjson(fc, hc)
     trace = os.path.join(ctx.tmp, "x07.trace")
     g = go(ctx, {"VERIF_X07_A": fa, "VERIF_X07_B": fb, "VERIF_X07_C": fc, "VERIF_X07_TRACE_OUT": trace,
@@ -401,6 +409,19 @@ def run(ctx):
     if g is None:
         return
     s = g.summary
+    # every history leaves a watcher goroutine with a connection behind: further histories go to further processes
+    for k, (xa, xb) in enumerate(more):
+        vf.write_ndjson(fa, xa)
+        vf.write_ndjson(fb, xb)
+        g2 = go(ctx, {"VERIF_X07_A": fa, "VERIF_X07_B": fb}, scaled, "X07 replay (process %d)" % (k + 2), 1500)
+        if g2 is None:
+            return
+        if "WARNING: DATA RACE" in g2.out:
+            g.out += g2.out
+        ctx.take_failures(g2, "replay")
+        for key, val in g2.summary.items():
+            if isinstance(val, int) and not isinstance(val, bool) and key in s:
+                s[key] += val
     ctx.log("replay: kv %d histories x 3 mounts (%d rounds, %d handshakes); pki %d histories (%d handshakes, %d issues, %d re-issue rounds, %d retried, %d void); "
             "token %d histories (%d void); recorded %d handshakes / %d events (%d segments dropped); %d fails; %.0fs"
             % (s["kv_histories"], s["kv_rounds"], s["kv_handshakes"], s["pki_played"], s["pki_handshakes"], s["pki_issues"], s["pki_rounds"], s["pki_retries"], s["pki_void"],
@@ -423,6 +444,11 @@ def run(ctx):
     if s.get("trace_handshakes", 0) < 100:
         ctx.inconclusive("only %d handshakes were recorded" % s.get("trace_handshakes", 0))
     else:
+        # cross-check of the reduction in VaultCerts_Trace!TSpec: every silent step explicit, on a part
+        small = os.path.join(ctx.tmp, "x07.trace.small")
+        head_segments(trace, small, ctx.pick(1, 3))
+        bg_eager = Bg(validate, ctx, small, ctx.pick(40, 240), eager=True)
+        time.sleep(0.2)
         v = validate(ctx, trace, ctx.pick(300, 1200))
         nev = sum(1 for _ in open(trace))
         if v.violated == "postcondition":
@@ -434,6 +460,18 @@ def run(ctx):
                           % (k, "\n".join(json.dumps(e) for e in lines[lo:k][-40:])), replay={"sub": "trace", "case": lines[lo:k + 20]})
         elif ctx.need_tlc_ok(v, "trace validation"):
             accepted = s["trace_handshakes"]
+            stale, segs, seen = 0, 0, []
+            for line in open(trace):
+                e = json.loads(line)
+                if e["ev"] == "Reset":
+                    segs += 1
+                    seen = []
+                elif e["ev"] == "Install":
+                    if any(set(e["ids"]) < set(p) for p in seen):
+                        stale += 1
+                    seen.append(e["ids"])
+            if stale:
+                ctx.log("LEAD (AsyncInstall, observed): in %d of %d recorded segments the store received an OLDER snapshot after a newer one (Install [1,2,3] followed by Install [1,2]): the certificate issued last is gone from the store although it is cached, the next handshake for its name issues again" % (stale, segs))
             ctx.log("trace validation: %d events accepted, %d states, %.0fs" % (nev, v.distinct or 0, v.wall))
             bad = os.path.join(ctx.tmp, "x07.trace.bad")
             if not corrupt_trace(trace, bad):
@@ -443,16 +481,16 @@ def run(ctx):
                 if vb.violated != "postcondition":
                     ctx.inconclusive("binding self-test: a trace with one corrupted handshake result was NOT rejected (%r %s)" % (vb.violated, vb.error))
             ctx.cover("trace", states=v.distinct or 0, transitions=v.generated or 0)
-            # cross-check of the reduction in VaultCerts_Trace!TSpec: every silent step explicit, on a part
-            small = os.path.join(ctx.tmp, "x07.trace.small")
-            head_segments(trace, small, ctx.pick(2, 6))
-            ve = validate(ctx, small, ctx.pick(120, 600), eager=True)
+            ve = bg_eager.get()
+            bg_eager = None
             if ve.timed_out:
                 ctx.log("note: the cross-check with explicit silent steps did not finish in time (not a verdict)")
             elif ve.violated or ve.error:
                 ctx.inconclusive("VaultCerts_Trace: TSpec accepted the recording but TSpecEager rejects its first segments (%r %s)" % (ve.violated, ve.error))
             else:
                 ctx.log("cross-check: first segments accepted with explicit silent steps (%d states, %.0fs)" % (ve.distinct or 0, ve.wall))
+    if s.get("trace_handshakes", 0) >= 100 and bg_eager is not None:
+        bg_eager.get()
     ctx.cover(traces_validated_against_impl=s["kv_played"] + s["pki_played"] + s["token_played"] + (s["trace_handshakes"] if accepted else 0),
               evaluations=s["kv_handshakes"] + s["pki_handshakes"] + s["kv_rounds"] + accepted,
               distinct_nontrivial=s["kv_nontrivial"] + s["pki_rounds"] + s["pki_issues"],
